@@ -990,6 +990,17 @@ impl CodegenContext {
                 ..
             } => {
                 if let Some(loop_count) = self.evaluate_expression_as_i64(expr, true)? {
+                    // Every iteration emits into at most 64K of memory, so anything bigger is a mistake
+                    // (and would keep us busy for a very long time)
+                    if loop_count > 0x10000 {
+                        return Err(Diagnostic::error()
+                            .with_message(format!(
+                                "loop count should be at most 65536, but is: {}",
+                                loop_count
+                            ))
+                            .with_labels(vec![expr.span.to_label()])
+                            .into());
+                    }
                     for index in 0..loop_count {
                         self.with_scope(loop_scope, Some(block), |s| {
                             s.add_symbol(
